@@ -170,6 +170,19 @@ class Ctx(object):
             "monitor": monitor, "mech": mech, "witness": jsonable(witness),
             "detail": str(detail)[:3000], "idx": self.cur_idx, "shard": self.shard,
         })
+        # a failure must survive the shard: if the code under test makes the rest of the run crawl and the parent's
+        # watchdog kills this process, the parent still reads what was observed so far
+        pp = getattr(self, "partial_path", None)
+        if pp:
+            try:
+                res = self.result()
+                res["status"] = "partial"
+                res["error"] = None
+                with open(pp + ".tmp", "w") as f:
+                    f.write(json.dumps(res))
+                os.replace(pp + ".tmp", pp)
+            except Exception:  # noqa
+                pass
 
     def guard(self, monitor, witness, fn, *args, **kw):
         """Run fn; an exception coming out of whoosh code is a failure of `monitor`.
@@ -225,6 +238,8 @@ def run_worker(args):
     mod = load_prop(args.prop)
     budget = float(os.environ.get("VERIF_BUDGET_S", getattr(mod, "BUDGET_S", {}).get(args.tier, 120)))
     ctx = Ctx(args.prop, args.tier, args.seed, args.shard, args.nshards, budget, args.replay_idx)
+    if args.out:
+        ctx.partial_path = args.out + ".partial"
     status = "ok"
     err = None
     try:
@@ -298,6 +313,16 @@ def run_parent(args):
                     results.append(json.load(f))
             except Exception as e:  # noqa
                 problems.append("shard %d result unreadable: %s" % (sh, e))
+        elif os.path.exists(out + ".partial"):
+            try:
+                with open(out + ".partial") as f:
+                    pr = json.load(f)
+                pr["status"] = "ok"
+                pr["truncated"] = True
+                results.append(pr)
+                problems.append("shard %d did not finish (rc=%s); the failures it had recorded before were kept" % (sh, p.returncode))
+            except Exception as e:  # noqa
+                problems.append("shard %d partial result unreadable: %s" % (sh, e))
         else:
             tail = ""
             try:
